@@ -10,9 +10,9 @@ From stdpp Require Import gmap list numbers sorting.
 From Coq Require Import ZArith NArith.
 Local Open Scope Z_scope.
 
-Definition txid := N.
-Definition outpoint := (N * N)%type.          (* txid, output index *)
-Definition blockid := (Z * N)%type.           (* height, block hash *)
+Notation txid := N (only parsing).
+Notation outpoint := (N * N)%type (only parsing).          (* txid, output index *)
+Notation blockid := (Z * N)%type (only parsing).           (* height, block hash *)
 
 Record tx := {
   t_id : txid;
@@ -22,12 +22,12 @@ Record tx := {
   t_coinbase : bool;
 }.
 
-Definition universe := gmap txid tx.
+Notation universe := (gmap N tx) (only parsing).
 
 (** Bucket values *)
 Record blockrec := { b_hash : N; b_time : Z; b_txs : list txid }.
-Definition txkey := (txid * Z * N)%type.      (* txid, height, block hash *)
-Definition credkey := (txid * Z * N * N)%type. (* txid, height, block hash, index *)
+Notation txkey := (N * Z * N)%type (only parsing).      (* txid, height, block hash *)
+Notation credkey := (N * Z * N * N)%type (only parsing). (* txid, height, block hash, index *)
 Record credval := { c_amt : Z; c_spent : bool; c_change : bool;
                     c_by : option credkey (* spender incidence + input index *) }.
 Record lockval := { l_id : N; l_expiry : Z }.
